@@ -76,6 +76,7 @@ const (
 	opPageFlush
 	opAllocRaw
 	opRead
+	opAllocRawN // AllocN(2) without writing the pages
 	numOps
 )
 
@@ -202,6 +203,18 @@ func (s *progState) step(tx *Tx, w *refModel) {
 		}
 		s.checkOwnership(w, p.ID())
 		w.pages = append(w.pages, refPage{id: p.ID(), isNew: true, raw: true})
+	case opAllocRawN:
+		verifLog("allocN(2) (no write)")
+		ps, err := tx.AllocN(2)
+		if err != nil {
+			verifAssert(isKind(err, OutOfMemory), "AllocN fails only with OutOfMemory")
+			return
+		}
+		verifAssert(len(ps) == 2 && ps[0].ID() != ps[1].ID(), "AllocN(2) returns 2 distinct pages")
+		for _, p := range ps {
+			s.checkOwnership(w, p.ID())
+			w.pages = append(w.pages, refPage{id: p.ID(), isNew: true, raw: true})
+		}
 	case opAllocN:
 		verifLog("allocN(2)")
 		ps, err := tx.AllocN(2)
